@@ -14,11 +14,12 @@ Judge(c) ==
     [] PROP = "C11" -> P_C11(c)
     [] PROP = "C13" -> P_C13(c)
     [] PROP = "C15" -> P_C15(c)
+    [] PROP = "C14" -> P_C14(c)
     [] OTHER -> FALSE
-Init == l = 1 /\ TLCSet(2, {})
+Init == l = 0 /\ TLCSet(2, {})
 Step == l <= N /\ l' = l + 1
 Spec == Init /\ [][Step]_l
 Check == /\ TLCSet(1, l)
-         /\ (l > N \/ "crash" \in DOMAIN Rec[l] \/ Judge(Rec[l]) \/ TLCSet(2, TLCGet(2) \cup {<<l, KFClass(PROP, Rec[l])>>}))
+         /\ (l = 0 \/ l > N \/ "crash" \in DOMAIN Rec[l] \/ Judge(Rec[l]) \/ TLCSet(2, TLCGet(2) \cup {<<l, KFClass(PROP, Rec[l])>>}))
 Report == PrintT(<<"JUDGED", TLCGet(1) - 1, "BAD", TLCGet(2)>>) /\ TLCGet(1) = N + 1
 =============================================================================
